@@ -11,6 +11,8 @@ import (
 
 func init() {
 	verifHarnesses["HarnessC18AddRow"] = HarnessC18AddRow
+	verifHarnesses["HarnessC18Boundary"] = HarnessC18Boundary
+	verifHarnesses["HarnessC05Boundary"] = HarnessC05Boundary
 	verifHarnesses["HarnessC04Cache"] = HarnessC04Cache
 	verifHarnesses["HarnessC04Queries"] = HarnessC04Queries
 }
@@ -205,6 +207,126 @@ func HarnessC04Queries() {
 	verifRaceFree("C04: concurrent queries access shared state without a common lock")
 	verifAssert(e1 == nil && c1 == verifCard(x1.den), "C04: a concurrent query did not return what it returns when run alone")
 	verifAssert(e2 == nil && c2 == verifCard(x2.den), "C04: a concurrent query did not return what it returns when run alone")
+	idx.Close()
+	verifReach("end")
+}
+
+// verifBigWriter opens the two databases of a big writer.
+func verifBigWriter(out, tmp string) (*BigIndexWriter, func()) {
+	db, err := bbolt.Open(out, 0644, nil)
+	if err != nil {
+		panic(err)
+	}
+	tempDB, err := bbolt.Open(tmp, 0600, nil)
+	if err != nil {
+		panic(err)
+	}
+	bw, err := NewBigIndexWriter(db, tempDB)
+	if err != nil {
+		panic(err)
+	}
+	return bw, func() { tempDB.Close(); db.Close() }
+}
+
+func verifTag4(i int) string {
+	return string([]byte{'t', byte('0' + i/1000), byte('0' + i/100%10), byte('0' + i/10%10), byte('0' + i%10)})
+}
+
+// verifCheckBoundaryRows probes the rows around the big writer's 1000-row commit.
+func verifCheckBoundaryRows(tag string, idx *Index, n int, tagOf func(id int) string) {
+	verifAssert(verifCount(idx, &ExprNot{Expr: &ExprEqual{Column: "a", Value: "nope"}}) == uint64(n), tag+": the index must hold exactly one row per AddRow call")
+	for _, id := range []int{0, 1, 998, 999, 1000, 1001, n - 1} {
+		if id >= n {
+			continue
+		}
+		t := &ExprEqual{Column: "t", Value: tagOf(id)}
+		verifAssert(verifCount(idx, t) == 1, tag+": a row added around the 1000-row commit is missing or duplicated")
+		mine := &ExprEqual{Column: "a", Value: []string{"x", "y"}[id%2]}
+		verifAssert(verifCount(idx, &ExprAnd{Exprs: []Expression{t, mine}}) == 1, tag+": a row's values are not on one single row")
+	}
+	verifAssert(verifCount(idx, &ExprEqual{Column: "a", Value: "x"}) == uint64((n+1)/2), tag+": rows were lost or mixed around the 1000-row commit")
+}
+
+// HarnessC05Boundary: the big writer across its 1000-row temp-database commit, sequentially
+// (1002 rows; needs the multi-word bitmap model).
+func HarnessC05Boundary() {
+	out := verifTempPath("c05b.updog")
+	bw, closeDBs := verifBigWriter(out, verifTempPath("c05b.tmp"))
+	n := 1002
+	for i := 0; i < n; i++ {
+		id, err := bw.AddRow(map[string]string{"t": verifTag4(i), "a": []string{"x", "y"}[i%2]})
+		if err != nil || id != uint32(i) {
+			verifAssert(false, "C05: AddRow must assign row ids 0,1,2,... in call order (across the 1000-row commit)")
+			return
+		}
+	}
+	verifAssert(bw.Flush() == nil, "C05: Flush of the big writer failed")
+	closeDBs()
+	idx, err := OpenIndex(out)
+	verifAssert(err == nil, "C05: the flushed file cannot be opened")
+	if err != nil {
+		return
+	}
+	verifCheckBoundaryRows("C05 big writer, 1002 rows", idx, n, verifTag4)
+	idx.Close()
+	verifReach("end")
+}
+
+// HarnessC18Boundary: one goroutine adds 1001 rows (crossing the commit that replaces the
+// temp transaction) while a second one adds two more; race detection over all accesses; no
+// forced preemptions (the happens-before analysis does not need the accesses to be adjacent).
+func HarnessC18Boundary() {
+	out := verifTempPath("c18b.updog")
+	bw, closeDBs := verifBigWriter(out, verifTempPath("c18b.tmp"))
+	const n1, n2 = 1001, 2
+	ids := make([]uint32, n1+n2)
+	var wg sync.WaitGroup
+	verifPreemptions(0)
+	verifSchedule(true)
+	verifLockset(true)
+	wg.Add(2)
+	go func() {
+		defer wg.Done()
+		for i := 0; i < n1; i++ {
+			id, err := bw.AddRow(map[string]string{"t": verifTag4(i), "a": []string{"x", "y"}[i%2]})
+			if err != nil {
+				panic(err)
+			}
+			ids[i] = id
+		}
+	}()
+	go func() {
+		defer wg.Done()
+		for i := n1; i < n1+n2; i++ {
+			id, err := bw.AddRow(map[string]string{"t": verifTag4(i), "a": []string{"x", "y"}[i%2]})
+			if err != nil {
+				panic(err)
+			}
+			ids[i] = id
+		}
+	}()
+	wg.Wait()
+	verifLockset(false)
+	verifSchedule(false)
+	verifRaceFree("C18: concurrent AddRow calls on the big writer around its 1000-row commit")
+	seen := make([]bool, n1+n2)
+	for _, id := range ids {
+		verifAssert(int(id) < n1+n2 && !seen[id], "C18: returned row ids must be exactly 0..n-1 without duplicates")
+		if int(id) < n1+n2 {
+			seen[id] = true
+		}
+	}
+	verifAssert(bw.Flush() == nil, "C18: Flush failed")
+	closeDBs()
+	idx, err := OpenIndex(out)
+	verifAssert(err == nil, "C18: the flushed index cannot be opened")
+	if err != nil {
+		return
+	}
+	for _, i := range []int{0, 999, 1000, 1001, 1002} {
+		verifAssert(verifCount(idx, &ExprEqual{Column: "t", Value: verifTag4(i)}) == 1, "C18: every added row appears exactly once")
+	}
+	verifAssert(verifCount(idx, &ExprNot{Expr: &ExprEqual{Column: "a", Value: "nope"}}) == uint64(n1+n2), "C18: the index must hold exactly one row per AddRow call")
 	idx.Close()
 	verifReach("end")
 }
